@@ -377,7 +377,8 @@ class Engine(OpsMixin):
 
     def eval_region(self, src):
         node = ast.parse(src, mode="eval").body
-        env = {k: v[1] for k, v in self.inputs.items()}
+        env = dict(getattr(self, "case", {}) or {})
+        env.update({k: v[1] for k, v in self.inputs.items()})
         fr = Frame(env, {"__builtins__": builtins}, None, None)
         saved = (self.pending, self.decisions, self.pos)
         # regions must be branch-free predicates: forbid forking
